@@ -65,6 +65,9 @@ type C13Case struct {
 	Ser         bool     `json:"ser"`
 	// Burst: the whole sequence is written back to back, without waiting for the client to digest each envelope
 	Burst bool `json:"burst,omitempty"`
+	// Ghost: the "id nobody uses" (target 2) is the id of a third call whose opening write was still parked in the
+	// transport when its caller's context ended ("stream" or "unary"); "" = an arbitrary unused number
+	Ghost string `json:"ghost,omitempty"`
 }
 
 func (c C13Case) names() []string {
@@ -81,6 +84,7 @@ func genC13(t *rapid.T) C13Case {
 	c := C13Case{KindA: rapid.SampledFrom(allKinds).Draw(t, "ka"), KindB: rapid.SampledFrom(allKinds).Draw(t, "kb"),
 		Stats: rapid.Bool().Draw(t, "stats"), Deadline: rapid.Bool().Draw(t, "deadline"), HeaderFirst: rapid.Bool().Draw(t, "hf"), Ser: rapid.Bool().Draw(t, "ser")}
 	c.Burst = rapid.Bool().Draw(t, "burst")
+	c.Ghost = rapid.SampledFrom([]string{"", "", "stream", "unary"}).Draw(t, "ghost")
 	n := rapid.IntRange(1, 30).Draw(t, "len")
 	for i := 0; i < n; i++ {
 		// runs of the same envelope matter (they fill the one-slot queues), so repeat the previous symbol with probability 1/3
@@ -135,6 +139,7 @@ func execC13(t *testing.T, c C13Case) (v Verdict) {
 	al := c13Alphabet()
 	obs := []*c13Obs{{}, {}}
 	var mu sync.Mutex
+	ghostDone := c.Ghost == ""
 	var tap []kit.Ev
 	kinds := []int{c.KindA, c.KindB}
 	res := kit.Bubble(t, func() {
@@ -197,6 +202,31 @@ func execC13(t *testing.T, c C13Case) (v Verdict) {
 			kit.Settle() // so that A gets the first id and B the second
 		}
 		ids := []uint64{0, 0, 424242}
+		if c.Ghost != "" {
+			l.A.Hold(func(r *kit.Rpc) bool { return r.GetHeader().GetMethod() == kit.FullMethod("m2") })
+			gctx, gcancel := context.WithCancel(context.Background())
+			go func() {
+				defer func() {
+					mu.Lock()
+					ghostDone = true
+					mu.Unlock()
+				}()
+				if c.Ghost == "unary" {
+					_, _ = kit.Invoke(gctx, cc, "m2", []byte("g"))
+					return
+				}
+				if cs, err := cc.NewStream(gctx, kit.StreamDescFor(kit.KindBidi), kit.FullMethod("m2")); err == nil {
+					_, _ = kit.RecvBytes(cs)
+				}
+			}()
+			kit.Settle()
+			if held := l.Held(); len(held) == 1 {
+				ids[2] = held[0].Rpc.GetId()
+			}
+			gcancel() // the parked opening write fails with the context's error: the call never reached the wire
+			kit.Settle()
+			l.A.Hold(nil)
+		}
 		for _, rq := range l.B.ReadAvailable() {
 			for i := 0; i < 2; i++ {
 				if rq.GetHeader().GetMethod() == kit.FullMethod(fmt.Sprintf("m%d", i)) && ids[i] == 0 {
@@ -228,6 +258,9 @@ func execC13(t *testing.T, c C13Case) (v Verdict) {
 	}
 	mu.Lock()
 	defer mu.Unlock()
+	if !ghostDone {
+		v.failf("the call whose opening write failed with its context has not terminated")
+	}
 	for i := 0; i < 2; i++ {
 		o := obs[i]
 		who := []string{"A", "B"}[i]
@@ -302,7 +335,7 @@ func execC13(t *testing.T, c C13Case) (v Verdict) {
 			hits++
 		}
 	}
-	v.Info = kit.CaseInfo{Labels: []string{lenClass, "A=" + kit.KindNames[c.KindA], "B=" + kit.KindNames[c.KindB], fmt.Sprintf("stats=%v", c.Stats), fmt.Sprintf("burst=%v", c.Burst)},
+	v.Info = kit.CaseInfo{Labels: []string{lenClass, "A=" + kit.KindNames[c.KindA], "B=" + kit.KindNames[c.KindB], fmt.Sprintf("stats=%v", c.Stats), fmt.Sprintf("burst=%v", c.Burst), fmt.Sprintf("ghost_id=%v", c.Ghost != "")},
 		NonTrivial: hits >= 1, Key: fmt.Sprintf("%+v", c), Sample: map[string]any{"calls": []string{kit.KindNames[c.KindA], kit.KindNames[c.KindB]}, "sequence": c.names(), "stats": c.Stats}}
 	if v.Fail != "" {
 		v.Detail = map[string]any{"sequence": c.names(), "wire": tapSummary(tap, 100)}
